@@ -306,6 +306,26 @@ def mpf_outward(f, args, prec, rounding, exact_at_integers=False):
         p = from_man_exp((MPZ_ONE<<wp) - (MPZ_ONE<<10), -wp)
     return mpf_mul(v, p, prec, rounding)
 
+def mpc_outward(f, z, prec, rounding, part):
+    """
+    The real (part=0) or imaginary (part=1) part of f(z), rounded outward
+    in the given direction (round_floor or round_ceiling). The complex
+    kernels are accurate relative to the modulus of their value, not part
+    by part: the value is computed with 20 extra bits and the part is moved
+    outward by 2^10 units of that precision of the larger part before the
+    final rounding (compare mpf_outward).
+    """
+    wp = prec + 20
+    v = f(z, wp)
+    x = v[part]
+    mags = [t[2]+t[3] for t in v if t[1]]
+    if not mags or (not x[1] and x[2]):
+        return x
+    delta = (0, MPZ_ONE, max(mags) + 10 - wp, 1)
+    if rounding == round_floor:
+        return mpf_sub(x, delta, prec, round_floor)
+    return mpf_add(x, delta, prec, round_ceiling)
+
 def mpi_exp(s, prec):
     sa, sb = s
     # exp is monotonic
@@ -949,28 +969,28 @@ def mpci_gamma(z, prec, type=0):
     # origin and near poles)
     # upper half-plane
     if mpf_ge(b1, fzero):
-        minre = mpc_loggamma((a1,b2), wp, round_floor)
-        maxre = mpc_loggamma((a2,b1), wp, round_ceiling)
-        minim = mpc_loggamma((a1,b1), wp, round_floor)
-        maxim = mpc_loggamma((a2,b2), wp, round_ceiling)
+        minre = mpc_outward(mpc_loggamma, (a1,b2), wp, round_floor, 0)
+        maxre = mpc_outward(mpc_loggamma, (a2,b1), wp, round_ceiling, 0)
+        minim = mpc_outward(mpc_loggamma, (a1,b1), wp, round_floor, 1)
+        maxim = mpc_outward(mpc_loggamma, (a2,b2), wp, round_ceiling, 1)
     # lower half-plane
     elif mpf_le(b2, fzero):
-        minre = mpc_loggamma((a1,b1), wp, round_floor)
-        maxre = mpc_loggamma((a2,b2), wp, round_ceiling)
-        minim = mpc_loggamma((a2,b1), wp, round_floor)
-        maxim = mpc_loggamma((a1,b2), wp, round_ceiling)
+        minre = mpc_outward(mpc_loggamma, (a1,b1), wp, round_floor, 0)
+        maxre = mpc_outward(mpc_loggamma, (a2,b2), wp, round_ceiling, 0)
+        minim = mpc_outward(mpc_loggamma, (a2,b1), wp, round_floor, 1)
+        maxim = mpc_outward(mpc_loggamma, (a1,b2), wp, round_ceiling, 1)
     # crosses real axis
     else:
-        maxre = mpc_loggamma((a2,fzero), wp, round_ceiling)
+        maxre = mpc_outward(mpc_loggamma, (a2,fzero), wp, round_ceiling, 0)
         # stretches more into the lower half-plane
         if mpf_gt(mpf_neg(b1), b2):
-            minre = mpc_loggamma((a1,b1), wp, round_floor)
+            minre = mpc_outward(mpc_loggamma, (a1,b1), wp, round_floor, 0)
         else:
-            minre = mpc_loggamma((a1,b2), wp, round_floor)
-        minim = mpc_loggamma((a2,b1), wp, round_floor)
-        maxim = mpc_loggamma((a2,b2), wp, round_ceiling)
+            minre = mpc_outward(mpc_loggamma, (a1,b2), wp, round_floor, 0)
+        minim = mpc_outward(mpc_loggamma, (a2,b1), wp, round_floor, 1)
+        maxim = mpc_outward(mpc_loggamma, (a2,b2), wp, round_ceiling, 1)
 
-    w = (minre[0], maxre[0]), (minim[1], maxim[1])
+    w = (minre, maxre), (minim, maxim)
     if type == 3:
         return mpi_pos(w[0], prec), mpi_pos(w[1], prec)
     if type == 2:
